@@ -20,6 +20,10 @@ class AnalysisError(Exception):
     """The analysis itself is broken (vanished anchor, unparsable source...)."""
 
 
+class Unresolved(Exception):
+    """A construct the following rules build on was not recognised; the remaining rules of the check are undecided."""
+
+
 # ---------------------------------------------------------------------------
 # Source provider
 # ---------------------------------------------------------------------------
@@ -132,7 +136,9 @@ class Finding:
 class Ctx:
     """Collector for one property run."""
 
-    def __init__(self, prop, tier="quick", seed=0):
+    def __init__(self, prop, tier="quick", seed=0, lenient=False):
+        self.lenient = lenient
+        self.strict_rules = set()
         self.prop = prop
         self.tier = tier
         self.seed = seed
@@ -155,25 +161,57 @@ class Ctx:
 
     # -- recording instances --------------------------------------------------
     def ok(self, rule, key, detail="", nontrivial=True):
+        from . import pm
+
+        pm.take_log()
         self.instances.append(
             dict(rule=rule, key=key, verdict="held", detail=detail, nontrivial=nontrivial)
         )
 
     def bad(self, rule, key, message, file="", line=0, witness="", **facts):
+        from . import pm
+
+        pm.take_log()
         self.instances.append(
             dict(rule=rule, key=key, verdict="VIOLATED", detail=message, nontrivial=True)
         )
         self.findings.append(Finding(rule, key, message, file, line, witness, facts))
 
     def unres(self, rule, key, why):
+        from . import pm
+
+        pm.take_log()
         self.unresolved.append(dict(rule=rule, key=key, why=why))
 
-    def check(self, cond, rule, key, message, file="", line=0, witness="", detail="", **facts):
+    def check(self, cond, rule, key, message, file="", line=0, witness="", detail="", strict=None, **facts):
+        """Decide one rule instance.  A failed condition is a violation when the rule is *strict* (its facts were
+        extracted from a construct the analysis fully recognised, so the deviation is semantic) or when one of the
+        pattern comparisons made for it was a near miss (the construct is there and differs in a detail, which is named
+        in the report).  Otherwise the construct was not recognised at all - restructured beyond what the rule
+        understands - and the instance is recorded as unresolved, never as a violation."""
+        from . import pm
+
+        near = pm.take_log()
         if cond:
             self.ok(rule, key, detail or "held")
+        elif strict or (strict is None and (not self.lenient or rule in self.strict_rules)) or near:
+            self.bad(rule, key, message + (f" — found {near[0]}" if near else ""), file, line, witness, **facts)
         else:
-            self.bad(rule, key, message, file, line, witness, **facts)
+            self.unres(rule, key, "construct not recognised: " + message[:160])
         return cond
+
+    def decide(self, rule, key, verdict, message, file="", line=0, witness="", detail="", **facts):
+        """verdict True: held; False: violated (the facts were extracted and contradict the rule); None: not recognised."""
+        if verdict is None:
+            self.unres(rule, key, "construct not recognised: " + message[:160])
+            return None
+        return self.check(bool(verdict), rule, key, message, file, line, witness, detail, strict=True, **facts)
+
+    def need(self, cond, what):
+        """A construct inside an anchored function that the following rules build on.  When it is not recognisable the
+        rest of the check cannot be decided: recorded as unresolved (not a violation, not an analysis error)."""
+        if not cond:
+            raise Unresolved(what)
 
     # -- analysis integrity ---------------------------------------------------
     def require(self, cond, what):
@@ -196,8 +234,12 @@ class Ctx:
 
 def transfer(ctx, src, mod, rules, key_filter=None, rename=None):
     """Run another property's check in a scratch context and adopt the instances/findings of the given rules."""
-    sub = Ctx(ctx.prop, ctx.tier, ctx.seed)
-    mod.check(sub, src.variant(bool(getattr(mod, "CANON", False))))
+    sub = Ctx(ctx.prop, ctx.tier, ctx.seed, lenient=bool(getattr(mod, "CANON", False)) and getattr(mod, "LENIENT", True))
+    sub.strict_rules = set(getattr(mod, "STRICT", ()))
+    try:
+        mod.check(sub, src.variant(bool(getattr(mod, "CANON", False))))
+    except Unresolved as e:
+        sub.unres("NEED", f"{mod.__name__.split('.')[-1]}", str(e))
     keep = (lambda k: True) if key_filter is None else key_filter
     for i in sub.instances:
         if i["rule"] in rules and keep(i["key"]):
@@ -254,15 +296,18 @@ def write_json(path, obj):
     os.replace(tmp, path)
 
 
-def run_property(prop, fn, tier, seed, src=None, write=True, out=sys.stdout):
+def run_property(prop, fn, tier, seed, src=None, write=True, out=sys.stdout, mod=None):
     """Run check function `fn(ctx, src)`; returns exit status (0, 1, 2)."""
     t0 = time.time()
     src = src or Src()
-    ctx = Ctx(prop, tier, seed)
+    ctx = Ctx(prop, tier, seed, lenient=src.canon and getattr(mod, "LENIENT", True))
+    ctx.strict_rules = set(getattr(mod, "STRICT", ()))
     status = 0
     err = None
     try:
         fn(ctx, src)
+    except Unresolved as e:
+        ctx.unres("NEED", prop, str(e))
     except AnalysisError as e:
         err = f"{e}"
         status = 2
